@@ -581,6 +581,14 @@ impl Ohkami {
             .expect(&format!("failed to write OpenAPI document JSON to {}", file_path.display()))
     }
 
+    /// verification hook H6 (feature `ohkami_verif`): the real `Session::manage` on one connection the caller accepted
+    #[cfg(all(feature="ohkami_verif", feature="__rt_native__"))]
+    #[doc(hidden)]
+    pub fn __verif_session(self, connection: __rt__::TcpStream) -> impl std::future::Future<Output = ()> {
+        let (router, _) = self.into_router().finalize();
+        Session::new(Arc::new(router), connection, std::net::IpAddr::V4(std::net::Ipv4Addr::LOCALHOST)).manage()
+    }
+
     #[cfg(feature="openapi")]
     #[doc(hidden)]
     pub fn __openapi_document_bytes__(&self, openapi: crate::openapi::OpenAPI) -> Vec<u8> {
